@@ -1,5 +1,5 @@
 (** Reciprocal-rank fusion law and "fused ids come from the two inputs" for every fusion kind. *)
-From Coq Require Import ZArith List Bool Lia Permutation.
+From Coq Require Import ZArith List Bool Lia Permutation Sorted.
 From Comet Require Import Base.FBits Base.Sorting Model.Fusion Proofs.SortingP Proofs.FusionP.
 Import ListNotations.
 Open Scope Z_scope.
@@ -91,4 +91,24 @@ Proof.
     destruct (lookup j t) eqn:Et; [right; apply lookup_in; congruence|congruence].
   - rewrite fuse_min_spec in Hin by assumption.
     destruct (lookup j v) eqn:Ev; [left; apply lookup_in; congruence|congruence].
+Qed.
+
+(** the ranking step of reciprocal-rank fusion (scoreMapToRanks): the ranks are the positions 0..n-1
+    in a best-first arrangement of the map's entries -- each position once, a better score never behind
+    a worse one (equal scores may stand in any order, but never share a position) *)
+Theorem ranks_are_positions (asc : bool) (m : smap) :
+  let skey := fun p : Z * Z => if asc then F64.key (snd p) else - F64.key (snd p) in
+  let sorted := isort skey m in
+  Permutation m sorted /\
+  StronglySorted (fun a b => skey a <= skey b) sorted /\
+  map fst (ranks asc m) = map fst sorted /\
+  map snd (ranks asc m) = map Z.of_nat (seq 0 (length m)).
+Proof.
+  cbv zeta. split; [apply isort_perm|]. split; [apply isort_strongly_sorted|]. split; [apply ranks_keys|].
+  unfold ranks.
+  assert (G : forall (a b : list Z), length a = length b -> map snd (combine a b) = b).
+  { induction a as [|x a IHa]; intros [|y b] Hab; cbn in *; try lia; [reflexivity | f_equal; apply IHa; lia]. }
+  rewrite G by (rewrite !map_length, seq_length; reflexivity).
+  rewrite (Permutation_length (isort_perm (fun p : Z * Z => if asc then F64.key (snd p) else - F64.key (snd p)) m)).
+  reflexivity.
 Qed.
